@@ -120,12 +120,16 @@ class Layout:
         self.nl(final_nl)
         # relations between keys of the same section
         first_idx = len(self.exps)
+        # (equality is an equivalence: an entry that repeats entry j equals every earlier entry that equals j)
+        dup_cls = None
+        if dup_of is not None and dup_of < len(self.exps) and self.exps[dup_of]["sec"] == self.cur_sec and self.exps[dup_of]["key"][1] == klen:
+            dup_cls = self.exps[dup_of]["first"]
         for j, ex in enumerate(self.exps):
             if ex["sec"] != self.cur_sec or ex["key"][1] != klen:
                 continue
-            if dup_of is not None and j == dup_of:
+            if dup_cls is not None and ex["first"] == dup_cls:
                 self.rels.append((ka, klen) + ex["key"] + (1,))
-                first_idx = ex["first"]
+                first_idx = dup_cls
             else:
                 self.rels.append((ka, klen) + ex["key"] + (0,))
         self.exps.append(dict(sec=self.cur_sec, key=(ka, klen), pieces=pieces if vkind != "none" else None, line=self.line,
